@@ -104,15 +104,15 @@ CHECKS = {
              'minute. ENGINE, for EVERY user strategy: no function of the strategy layer (order execution with its hooks, '
              'a strategy step, the market-order queue, the route step, the end of the run) writes the candle store, and the '
              'engine model\'s partial-candle update turns the pre-invariant into the invariant for every timeframe of the symbol. '
-             'RUN LEVEL (runStepN_inv): in the normal simulator, single-symbol sessions with any set of timeframes, for every '
-             'strategy, after each iteration the store holds exactly the normalised input rows so far and satisfies the store '
-             'invariant for every timeframe (so every reader gets one candle per started window, each the aggregate of its '
-             'minutes), or the run was stopped by an error. Tie: translator + store and '
+             'RUN LEVEL (runStepN_all): in the normal simulator, for any number of symbols, any set of timeframes per symbol and '
+             'every strategy, after each iteration every symbol\'s store holds exactly its normalised input rows so far and '
+             'satisfies the store invariant for every timeframe (so every reader gets one candle per started window, each the '
+             'aggregate of its minutes), or the run was stopped by an error. Tie: translator + store and '
              'whole-session correspondence; oracle on real sessions reads every timeframe at every hook (liquidation hooks '
              'included) in both simulators.',
         technique='Lean 4 theorems over generated aggregation + hand store and engine models (window decomposition, invariant, write protocol, frame for the strategy layer); correspondence; every-hook session oracle',
         ref='4 (C07), 8.2',
-        note='Not yet theorems: several symbols in the run-level statement, the fast simulator\'s run-level composition, warm-up injection (evidence.unproved; decided by correspondence + the every-hook oracle).'),
+        note='Not yet theorems: the fast simulator\'s run-level composition, warm-up injection (evidence.unproved; decided by correspondence + the every-hook oracle).'),
     'C08': dict(
         text='Proof over the definition of split_candle REGENERATED from the source on every run: it equals the cut of the '
              'continuous O-L-H-C / O-H-L-C path at the first visit of the price (full functional spec), hence valid parts, '
